@@ -1,4 +1,4 @@
-HOOK_COMMITS = ["27ad88b", "955c941", "4436111", "27d3bdc", "cfd1fa3", "16566ab", "69a0f58", "1bdaa91", "ff29c2d", "bd5f6db", "8b6ad29", "f064c7d", "70c5feb"]
+HOOK_COMMITS = ["27ad88b", "955c941", "4436111", "27d3bdc", "cfd1fa3", "16566ab", "69a0f58", "1bdaa91", "ff29c2d", "bd5f6db", "8b6ad29", "f064c7d", "70c5feb", "ba84928"]
 NOTES = ("Machine-checked proof in Lean 4 over a hand-written executable model of go-jsonrpc, tied to /repo on every run by "
          "(a) facts regenerated from the Go source with obligations re-checked by Lean and (b) a correspondence harness that "
          "runs the real library and the model's executable definitions on the same cases / replays implementation traces "
@@ -22,7 +22,7 @@ CHECKS = [
           "+ differential run of the real ServeHTTP against the model on grammar-generated bodies, with the property's monitor "
           "evaluated on the real reply; WebSocket clause: Jrpc.wsCall models handleCall's writer selection (discard writer for id-less frames), "
           "theorems C09_ws_notification_silent / C09_ws_exactly_one / C09_ws_exec_wire, tied by the skeleton of handleCall and by request frames "
-          "from the same grammar sent over a raw WebSocket connection.",
+          "from the same grammar sent over a raw WebSocket connection. Fourth round: bodies with bytes after the first JSON value (F19), failing notifications over HTTP with a strict monitor and theorem C09_http_notification_silent (F21), the largest size limit (F22), an endpoint without handlers (C09_ws_no_handler, F35).",
   "design_ref": "DESIGN.md §6 C09",
   "note": TB + " encoding/json is an oracle parameter of the model (per-element decodability is computed by the harness with the real decoder).",
   "technique": "Lean 4 theorems (induction over the batch fold, case analysis of handle) + regenerated facts + differential correspondence"},
@@ -33,7 +33,7 @@ CHECKS = [
           "namespace (injectivity on dot-free method names, all strings); a handler runs only if arity and every positional param "
           "decode fit. Tie: regenerated facts (lookup order, gates before doCall, formatter shape) + exhaustive differential over the "
           "property's small universe through the real ServeHTTP and a real client per configuration."
-          " Also: a method with several positional params and a mismatch at every position; alias chains.",
+          " Also: a method with several positional params and a mismatch at every position; alias chains. Fourth round: method names starting with a letter outside ASCII under every formatter, over http and ws (F29).",
   "design_ref": "DESIGN.md §6 C12",
   "note": TB + " Method names are assumed to start with an ASCII byte (lower-first slices one byte).",
   "technique": "Lean 4 theorems (list/lookup induction, injectivity of the formatter) + regenerated facts + exhaustive differential correspondence"},
@@ -43,7 +43,7 @@ CHECKS = [
           "permission error and no invocation; ServeHTTP passes exactly verify(token) for 'Bearer t' from header or token query, nothing "
           "for token-less requests, 401 for wrong prefix or rejected token, header wins. Tie: exhaustive differential over the "
           "3-permission universe and header/query forms against the real auth package."
-          " Also: permissions outside validPerms and histories in which the verifier's answer for a token changes between requests to one handler value.",
+          " Also: permissions outside validPerms and histories in which the verifier's answer for a token changes between requests to one handler value. Fourth round: token-less requests with form-encoded bodies (attached set, status, and the body the next handler reads; F24), permissioned methods without a leading context (F25).",
   "design_ref": "DESIGN.md §6 C19",
   "note": TB,
   "technique": "Lean 4 theorems (decision logic stated outright) + exhaustive differential correspondence"},
@@ -95,7 +95,7 @@ CHECKS = [
           "only through doCall; no other reflect Call in the package) + scenarios against a server in a child process: 6 panic payloads "
           "x {unary, notification, channel-returning} x {ws, http} x {alone, with concurrent callers and a stream}, observing the caller's "
           "error, sibling results, process survival and subsequent calls."
-          " Also: payloads that are unhashable, unmarshalable, nil or net/http's abort sentinel, and handlers that panic after their caller cancelled.",
+          " Also: payloads that are unhashable, unmarshalable, nil or net/http's abort sentinel, and handlers that panic after their caller cancelled. Fourth round: the victim server runs with GODEBUG=panicnil=1, so panic(nil) recovers as nil (F33).",
   "design_ref": "DESIGN.md §6 C13",
   "note": TB + " Reverse-call panics (client-side handlers) are exercised by the C16 scenarios, not here.",
   "technique": "Lean 4 theorems (frame lemma on the executor state) + regenerated facts + subprocess scenario correspondence"},
@@ -133,7 +133,7 @@ CHECKS = [
           "reconnect) under seed-driven delays: each connection's w.begin/w.end hook trace is replayed through the model and every frame the "
           "proxy reassembles must be one well-formed JSON-RPC frame; plus a race-detector run of the same scenarios and of the "
           "ping-pending-at-loss schedule (support for the 'no unsynchronised access' clause)."
-          " Also: race-detector schedules PongCut and SubCut; skeletons of sendRequest, nextWriter, lazyWriter and setupPings.",
+          " Also: race-detector schedules PongCut and SubCut; skeletons of sendRequest, nextWriter, lazyWriter and setupPings. Fourth round: raw params that are not JSON must not put an empty message on the wire (F27).",
   "design_ref": "DESIGN.md §6 C14",
   "note": TB + " PARTIAL for the second clause: unsynchronised reads are covered by the regenerated use table and the race detector (dynamic), not by a memory-model proof.",
   "technique": "Lean 4 theorems (wire invariant by induction over lock events) + regenerated facts + hook-trace inclusion + wire monitor + race-detector support"},
@@ -159,7 +159,7 @@ CHECKS = [
           "while values are buffered the buffer goroutine has a move. Tie: as C07 + scenarios over cause x instant x reconnect x fault kind "
           "(including faults armed at 5 byte positions of the channel-id response, cancel racing loss, loss then close), every handed-out "
           "channel must close and stay a prefix."
-          " Also: Jrpc.Forwarder (as C07) and Jrpc.Sweep (order of the sweeps on the exit and reconnect paths); a stale subscription context cancelled after a reconnect must not touch the subscription that reuses its channel id.",
+          " Also: Jrpc.Forwarder (as C07) and Jrpc.Sweep (order of the sweeps on the exit and reconnect paths); a stale subscription context cancelled after a reconnect must not touch the subscription that reuses its channel id. Fourth round: a subscription through a proxy field without a context parameter, client in a child process (F23).",
   "design_ref": "DESIGN.md §6 C08",
   "note": TB + " PARTIAL: 'eventually closed' = enabledness + fairness; observed with time-outs. F12 (sink registered after the sweep) is decided by the C03 scenarios: the subscribing call then fails and no channel is handed out.",
   "technique": "Lean 4 theorems (prefix invariant, close-once, crash-freedom by induction over events) + regenerated skeleton facts + hook-trace inclusion"},
@@ -170,7 +170,7 @@ CHECKS = [
           "than one message; a response whose id is registered is handed to exactly the attempt registered under it, unknown ids are dropped "
           "without touching any attempt; one-shot transports accept a response only if its normalised id equals the request's. "
           + CORRTIE + " Scenarios: every completion permutation for N<=3 (4, 5 sampled), random orders up to 25 callers, HTTP server answering with foreign ids."
-          " Also: concurrent calls alternate between two generated functions (ids are per client); interpreted facts for normalizeID and the id counter.",
+          " Also: concurrent calls alternate between two generated functions (ids are per client); interpreted facts for normalizeID and the id counter. Fourth round: calls whose request cannot be written (raw params that are not JSON, F27) and whose result cannot be encoded (F26) must still return.",
   "design_ref": "DESIGN.md §6 C02",
   "note": TB + " Stated bound: ids are distinct below 2^53 calls per client.",
   "technique": "Lean 4 theorems (invariants by induction over events, grind-assisted) + regenerated skeleton facts + hook-trace inclusion"},
@@ -182,7 +182,7 @@ CHECKS = [
           "sends can never block; entries belong to the current epoch; no foreign results under faults. " + CORRTIE +
           " Scenarios: fault kind x 5 byte positions x direction x frame x call timing (before noticed / in the window / after recovery), "
           "double faults, and two gated schedules (sweep versus executor; a late delete versus a retried call)."
-          " Also: calls issued after the connection goroutine ended (closer, loss on a no-reconnect client) must fail, not block.",
+          " Also: calls issued after the connection goroutine ended (closer, loss on a no-reconnect client) must fail, not block. Fourth round: a silent stall while a 48 MiB request is being written (proxy fault `stall`: silent and no longer reading; F34).",
   "design_ref": "DESIGN.md §6 C03",
   "note": TB + " PARTIAL: 'every call returns' = ownership + enabledness + scheduler fairness; observed with the clock-free oracle (a later probe round-tripped).",
   "technique": "Lean 4 theorems (ownership invariant by induction over events) + regenerated skeleton facts + hook-trace inclusion + gated schedules"},
@@ -201,7 +201,7 @@ CHECKS = [
           "taken attempt has an answer or is held by the executor whose send is enabled, every untaken attempt can return the exiting error; "
           "no swap without a running redial. " + CORRTIE + " Scenarios: the closer fired at sampled occurrences of 25 yield-point sites of a mixed workload, "
           "the sweep-versus-executor schedule with the closer as observer, closers of one-shot clients."
-          " Also: the closer fired while the redial goroutine is about to sleep, contexts cancelled at the moment of the close, a subscriber twelve thousand values behind at the close.",
+          " Also: the closer fired while the redial goroutine is about to sleep, contexts cancelled at the moment of the close, a subscriber twelve thousand values behind at the close. Fourth round: close after 0/1/2 reconnects with a goroutine dump for keepalive goroutines (F38).",
   "design_ref": "DESIGN.md §6 C18",
   "note": TB + " PARTIAL: completion = safety form + fairness; observed with time-outs.",
   "technique": "Lean 4 theorems (exit-path enabledness, post-exit invariant) + regenerated skeleton facts + hook-trace inclusion + gated closes"},
@@ -214,7 +214,7 @@ CHECKS = [
           "registered after its handler returned. Tie: regenerated skeletons of handleCall/cancelCtx/handleCtxAsync/doRequest + scenarios "
           "(subsets cancelled at four instants, a second connection, HTTP abort) whose server-connection hook traces are replayed through the "
           "model and compared with the contexts captured inside the real handlers."
-          " Also: subscriptions cancelled while their handler is still setting up, ids of every JSON type from a foreign peer, subscriptions ended by the server next to open ones; a reverse call on a reconnected client cancelled after a handler of the previous connection with the same request id returned (Jrpc.Epoch: Epoch_cancel_reaches, Epoch_cancel_only; F18).",
+          " Also: subscriptions cancelled while their handler is still setting up, ids of every JSON type from a foreign peer, subscriptions ended by the server next to open ones; a reverse call on a reconnected client cancelled after a handler of the previous connection with the same request id returned (Jrpc.Epoch: Epoch_cancel_reaches, Epoch_cancel_only; F18). Fourth round: the context given to NewClient cancelled with a call in flight (F32).",
   "design_ref": "DESIGN.md §6 C06",
   "note": TB + " HTTP cancellation is net/http's; honest-peer hypothesis for 'only if the caller cancelled'.",
   "technique": "Lean 4 theorems (frame lemma + cause invariant by induction over events) + regenerated skeleton facts + hook-trace inclusion"},
@@ -227,7 +227,7 @@ CHECKS = [
           "(handleCall, lazyWriter.Write, nextWriter, nextMessage, readFrame, setupPings) + scenarios over end cause x reaction time with five "
           "kinds of handler in progress and the gated reader-hand-off schedule: captured contexts must be cancelled, the goroutine profile "
           "filtered by the connection's pprof labels must drain, and the server connection's trace is replayed through Jrpc.Cancel."
-          " Also: raw-peer scenarios (a writer stalled on a peer that does not read, then FIN or server-side cancel; a partial frame when the server cancels; a reverse call whose write fails).",
+          " Also: raw-peer scenarios (a writer stalled on a peer that does not read, then FIN or server-side cancel; a partial frame when the server cancels; a reverse call whose write fails). Fourth round: one keepalive ping from the peer while the response writer is stalled, then close frame / server-side cancel (F37).",
   "design_ref": "DESIGN.md §6 C15",
   "note": TB + " The goroutine model is tied by skeleton facts and profile observation, not by trace replay.",
   "technique": "Lean 4 theorems (context derivation, ranking function + progress over the goroutine model) + regenerated skeleton facts + goroutine-profile observation + hook-trace inclusion"},
@@ -246,7 +246,7 @@ CHECKS = [
           " The answering side on a reconnecting client is Jrpc.Epoch (connection epoch, guarded response writer, handling map): "
           "Epoch_answer_own — every response written on a connection under an id comes from the invocation started for the request with "
           "that id which arrived on that connection — with the invariant proved for every event; scenario StaleAnswer (a handler of the "
-          "previous connection returns while the same id is pending on the new one), its serving-side trace replayed through op epoch (F18).",
+          "previous connection returns while the same id is pending on the new one), its serving-side trace replayed through op epoch (F18). Fourth round: a reverse subscription after a loss during which the old producer emitted (F20), a shared non-default formatter without aliases (F28), a client without handlers (F35), a large reverse request still queued when its connection ended (F18b).",
   "design_ref": "DESIGN.md §6 C16",
   "note": TB,
   "technique": "Lean 4 theorems (frame/projection lemma over a product of LTSs, corollaries of the Corr invariants) + regenerated skeleton facts + hook-trace inclusion per endpoint + scenario monitors"},
@@ -262,7 +262,7 @@ CHECKS = [
           "(idle / during a call / under local traffic) whose pending call must fail with the typed connection error and whose redial must "
           "start within 4 timeouts; the client connection's timestamped hook trace (activity, renewals, re-arms, read failures, timer firings) "
           "is replayed through the model's acceptor: no failure before its armed deadline, no renewal without an activity to consume."
-          " Also: a peer silent from the first moment of a connection, keepalive after a reconnect, a peer slow to read for two seconds; healthy-link verdicts are conclusive only if a lag probe and the proxy's frame log show a responsive environment.",
+          " Also: a peer silent from the first moment of a connection, keepalive after a reconnect, a peer slow to read for two seconds; healthy-link verdicts are conclusive only if a lag probe and the proxy's frame log show a responsive environment. Fourth round: a redial that completes shortly before the idle timer armed at the loss is due (F36; schedule gated by the lag probe).",
   "design_ref": "DESIGN.md §6 C17",
   "note": TB + " PARTIAL: G and E are environment assumptions; wall-clock behaviour is sampled by the scenarios, not proved.",
   "technique": "Lean 4 theorems (two invariants by induction over timed events) + regenerated skeleton facts + timed hook-trace acceptance + scenario monitors"},
